@@ -4,18 +4,25 @@
 From Verif Require Import Base C06_Model.
 From Gen Require Import Facts.
 
-Lemma merge_classes_ok : merge_classes = tree_classes.
-Proof. vm_compute. reflexivity. Qed.
-
+(* the four slice-carrying MergeClause bodies (probed on the running gorm: merged onto a stored slice with
+   spare capacity, the result must live in another backing array) give the model's [md] *)
 Lemma md_ok : forall f, md_of_classes merge_classes f = tree_md f.
 Proof. intro f. destruct f; vm_compute; reflexivity. Qed.
 
+Lemma from_ok : from_merge_replaces = true.
+Proof. vm_compute. reflexivity. Qed.
+
+(* Statement.clone, probed on the running gorm: Joins and scopes are copied, the clause slices and
+   Selects/Omits are shared (the model's clone shares exactly these), Clauses is a new map *)
 Lemma clone_ok :
   forallb (fun x => existsb (String.eqb x) clone_copied) tree_clone_copied = true
-  /\ existsb (String.eqb "Selects") clone_shared = true
-  /\ existsb (String.eqb "Omits") clone_shared = true
+  /\ forallb (fun x => existsb (String.eqb x) clone_shared) tree_clone_shared = true
   /\ existsb (String.eqb "Clauses") clone_fresh_maps = true.
 Proof. vm_compute. repeat split; reflexivity. Qed.
+
+(* Session options from a Session-style parent: own statement exactly for Context and SkipHooks *)
+Lemma session_clones_ok : session_clones = tree_session_clones.
+Proof. vm_compute. reflexivity. Qed.
 
 (* chain methods (incl. one level of unexported helper methods) append in place only onto statement
    slices the model appends onto, and every in-place append onto a slice that Statement.clone shares
